@@ -34,11 +34,12 @@ type LogOpt struct {
 
 // Desc is a case descriptor.
 type Desc struct {
-	Kind     string     `json:"kind"` // lists | baseline | logger | loginst
+	Kind     string     `json:"kind"` // lists | baseline | logger | loginst | fleets
 	What     string     `json:"what,omitempty"`
 	K        string     `json:"k,omitempty"`
 	Lists    []List     `json:"lists,omitempty"`
 	LogLists [][]LogOpt `json:"log_lists,omitempty"`
+	Fleets   []Fleet    `json:"fleets,omitempty"`
 }
 
 // ---------------------------------------------------------------------------------------------
@@ -318,6 +319,18 @@ func gen(tier string, seed int64) []mon.Case {
 		if ps.Kind == "bool" {
 			cs = append(cs, mon.MkCase("c19/platform-option-twice/"+ps.Name, Desc{Kind: "lists", What: "platform-option-twice:" + ps.Name, Lists: genPlatformBoolTwice(r, ps)}))
 		}
+	}
+	cs = append(cs, mon.MkCase("c19/fleet/dedicated", Desc{Kind: "fleets", What: "fleet:dedicated", Fleets: genDedicatedFleets()}))
+	fb, fper := 10, 30
+	if tier == "thorough" {
+		fb, fper = 100, 100
+	}
+	for b := 0; b < fb; b++ {
+		d := Desc{Kind: "fleets", What: "fleet:random"}
+		for i := 0; i < fper; i++ {
+			d.Fleets = append(d.Fleets, genFleet(r))
+		}
+		cs = append(cs, mon.MkCase(fmt.Sprintf("c19/fleet/%04d", b), d))
 	}
 	batches, per := 100, 40
 	if tier == "thorough" {
@@ -633,6 +646,8 @@ func run(c mon.Case) mon.Result {
 		return runLogger(d)
 	case "loginst":
 		return runLogInst(d)
+	case "fleets":
+		return runFleets(d)
 	}
 	return runLists(d)
 }
